@@ -65,7 +65,7 @@ KINDS = {
 
 
 def plan(tier, seed):
-    n = 2 if tier == "quick" else 22
+    n = 3 if tier == "quick" else 22
     return [{"shard": i, "cases": n} for i in range(NSHARDS)]
 
 
@@ -306,7 +306,7 @@ class PlanStrategy(_StrategyBase):
     # -- demeter callbacks
     def initialize(self):
         sp = self.spec
-        self._t0 = time.time()
+        self._t0 = time.monotonic()  # system-wide clock: orders the strategies that one process ran
         self._rng = random.Random(sp["seed"])
         self._bar = -1
         self._n = {"ok": 0, "rejected": 0, "generr": 0}
@@ -432,7 +432,7 @@ class PlanStrategy(_StrategyBase):
         sp = self.spec
         df = self.account_status_df if status == "finished" else AccountStatus.to_dataframe(self.account_status)
         rec = {
-            "name": sp["name"], "kind": sp["kind"], "status": status, "pid": os.getpid(), "t0": self._t0, "t1": time.time(),
+            "name": sp["name"], "kind": sp["kind"], "status": status, "pid": os.getpid(), "t0": self._t0, "t1": time.monotonic(),
             "ops": dict(self._n),
             "history": _history(df),
             "actions": [[type(a).__name__, {k: _norm(v) for k, v in sorted(vars(a).items())}] for a in self.actions],
@@ -479,12 +479,12 @@ def worker_main(jobfile):
                             json.dump({"type": type(e).__name__, "msg": str(e)[:300], "tb": traceback.format_exc()[-1500:]}, fh)
                 finally:
                     os._exit(0)
-            deadline = time.time() + RUN_TIMEOUT
+            deadline = time.monotonic() + RUN_TIMEOUT
             while True:
                 done, _st = os.waitpid(pid, os.WNOHANG)
                 if done:
                     break
-                if time.time() > deadline:
+                if time.monotonic() > deadline:
                     os.kill(pid, 9)
                     os.waitpid(pid, 0)
                     break
@@ -535,6 +535,17 @@ def _load(out, names):
 
 
 # ------------------------------------------------------------------------------------------------ comparison
+def _show(c):
+    """record cell -> short human text (cells are exact: integers, p/q, f<repr>)"""
+    if isinstance(c, str) and "/" in c and c.replace("/", "").replace("-", "").isdigit():
+        p, q = c.split("/")
+        try:
+            return f"{int(p) / int(q):.15g}"
+        except (OverflowError, ZeroDivisionError):
+            return c
+    return str(c)[:80]
+
+
 def _first_diff(a, b):
     """(component, description) of the first difference between two records, or None."""
     if a["status"] != b["status"]:
@@ -547,7 +558,7 @@ def _first_diff(a, b):
     for i, (ra, rb) in enumerate(zip(ha["rows"], hb["rows"])):
         if ra != rb:
             d = [(ha["columns"][j], x, y) for j, (x, y) in enumerate(zip(ra, rb)) if x != y][:4]
-            return "account-history", f"bar {i} ({ha['index'][i]}): " + "; ".join(f"{c}: alone {x} managed {y}" for c, x, y in d)
+            return "account-history", f"bar {i} ({ha['index'][i]}): " + "; ".join(f"{c}: alone {_show(x)} managed {_show(y)}" for c, x, y in d)
     if a["actions"] != b["actions"]:
         la, lb = a["actions"], b["actions"]
         for i in range(max(len(la), len(lb))):
@@ -597,7 +608,8 @@ def one_case(mon, c, case, wanted, scratch):
             mon.note(f"solo-framework-raise/{e['type']}", f"{mix}/{kind[nm]}: {e['msg'][:200]} {e.get('tb', '')[-400:]}")
     # ---- managed variants
     for j in wanted:
-        run = case["runs"][j]
+        run = dict(case["runs"][j])
+        run["threads"] = min(run["threads"], os.cpu_count() or 1)  # the manager refuses more workers than cores
         mon.want(f"{c}.{j}")
         out = os.path.join(scratch, f"c{c}-run{j}")
         os.makedirs(out)
@@ -689,7 +701,7 @@ def judge(mon, case, run, mgr, solo, recs, again, tail):
                           f"{nm}:{kd} ({site}) {d[1]}; {desc}", {"case": case, "run": run, "strategy": nm})
     mon.sample({**desc, "all_equal_to_solo": all_equal,
                 "actions_per_strategy": {nm: len(r["actions"]) for nm, r in solo.items()},
-                "final_net_value_alone": {nm: (r["history"]["rows"][-1][0] if r["history"]["rows"] else None) for nm, r in solo.items()}},
+                "final_net_value_alone": {nm: (_show(r["history"]["rows"][-1][0]) if r["history"]["rows"] else None) for nm, r in solo.items()}},
                cls=f"{mix}/{path}/{min(t, 3)}")
 
 
